@@ -103,6 +103,34 @@ pub fn c12_case(b: &Batch, ri: usize, vals: &[DV], _k: usize, st: &mut Stats, co
                 }
             }
         }
+        // the same type inside a sequence and an array (the library may write those with one raw
+        // copy): the schema of Vec<T> / [T; 3] is Vector(schema(T)) / Array(3, schema(T))
+        if vals.len() >= 3 {
+            let xs: Vec<DV> = vals.iter().take(3).map(|x| ops.normalize(x)).collect();
+            if xs.iter().all(|x| u.after_reload(ty, v, x).is_ok()) {
+                let all: BTreeSet<&'static str> = KNOWN_PATCHES.iter().copied().collect();
+                let models: Option<Vec<Shape>> = xs.iter().map(|x| u.wire_shape(ty, v, x)).collect();
+                for (p, sch, model) in [
+                    (PathK::Vec, RSchema::Vector(Box::new(schema.clone()), 0), models.clone().map(|m| Shape::Seq(m, false))),
+                    (PathK::Arr3, RSchema::Array(3, Box::new(schema.clone())), models.clone().map(Shape::Fields)),
+                ] {
+                    if recursive_ty {
+                        // recursion frames are located inside the root schema object; not re-derived for the wrapper
+                        continue;
+                    }
+                    let bytes = match ops.write_vec(Container::Bare, p, v, &xs) {
+                        Out::Ok(b) => b,
+                        _ => continue,
+                    };
+                    if counting {
+                        st.evaluations += 1;
+                        st.class(&format!("bulk_path_read.{:?}", p));
+                    }
+                    let ex = json!({"version": v, "path": format!("{:?}", p), "bytes": hex(&bytes)});
+                    read_with(&sch, &[], &bytes, &all, model.as_ref(), &ex)?;
+                }
+            }
+        }
     }
     Ok(())
 }
